@@ -428,3 +428,5 @@ brk("c10-from-payloads-dropped", ["C10"], (CACHE, "            cache.add_cache_s
 brk("c10-merge-file-dropped", ["C10"], (CACHE, "            cache.merge_single_cache_file(single_input)\n", "            pass\n"))
 brk("c10-close-dropped", ["C10"], (CACHE, '    cache.close_and_save_cache(kwargs["output_file"])\n', "    pass\n"))
 brk("c10-item-arity", ["C10"], (CACHE, "            if len(args) < 2:", "            if len(args) <= 2:"))
+brk("c04-dispatch-hash-eddsa-flipped", ["C04"], (KMS, '            if algorithm == "hash-eddsa":\n                return self._create_cose_ed_prehashed_signature', '            if algorithm != "hash-eddsa":\n                return self._create_cose_ed_prehashed_signature'))
+brk("c04-dispatch-ed-and", ["C04"], (KMS, "        elif isinstance(private_key, Ed25519PrivateKey) or isinstance(private_key, Ed448PrivateKey):\n            if algorithm", "        elif isinstance(private_key, Ed25519PrivateKey) and isinstance(private_key, Ed448PrivateKey):\n            if algorithm"))
